@@ -271,6 +271,7 @@ void generate(uint64_t seed, const Str& profile, Desc& d, bool exceptions) {
                 if (w2 == 0) { o.kind = K_DIE_SIGNAL; static const int sigs[] = { 1, 2, 6, 9, 11, 13, 15, 17 }; o.a = sigs[faults.below(8)]; } else if (w2 == 1) { o.kind = K_DIE_EXIT; o.a = (int64_t)faults.range(1, 255); } else { o.kind = K_DIE_ABORT; if (exceptions && faults.chance(1, 2)) o.b = 1; }      // b = 1: the action throws; nothing catches it outside the test phases, the child ends in std::terminate
                 P.ops.push_back(o);
             }
+            if (p >= 1 && !f.procReal && !f.procSyn && world.chance(1, 8)) { Op o; o.kind = K_PLUGIN_REMOVE; o.phase = PH_PRE; o.d = ++opLine; o.a = (int64_t)world.below((uint64_t)p); P.ops.push_back(o); }      // this plugin's pre action removes a plugin installed before it (one that sits behind it in the chain)
             // keep ops ordered by phase
             Vec<Op> pre, post; for (size_t i = 0; i < P.ops.size(); i++) (P.ops[i].phase == PH_PRE ? pre : post).push_back(P.ops[i]);
             P.ops = pre; P.ops.insert(P.ops.end(), post.begin(), post.end());
